@@ -12,7 +12,7 @@
    are not (ok and all inputs obtainable) -- i.e. the failing setters whose inputs were there, and every field on or
    behind a cycle, a failing setter or a missing key.  Nothing in the statement mentions the order of [pending0].
 
-   hash(tuple(pending)) is taken injective (assumption A-hash): [seen] holds the lists themselves. *)
+   [seen] holds the pending lists themselves, as the code does (fact token state:tuple, obligation ok_worklist). *)
 From Coq Require Import List Bool Arith Lia Permutation.
 From Cerb Require Import Values Worklist WorklistProofs.
 Import ListNotations.
